@@ -498,7 +498,7 @@ def pure_body_expr(fn: ast.FunctionDef) -> Optional[ast.AST]:
 
 
 def inline_pure_exprs(index: RepoIndex, module: Module, cls, expr: ast.AST,
-                      depth: int = 3, cross: tuple = ()) -> ast.AST:
+                      depth: int = 3, cross: tuple = (), keep: tuple = ()) -> ast.AST:
     """replace calls `self.m(args)` / `helper(args)` of pure one-expression helpers by the
     helper's expression with the parameters substituted (on a copy)"""
     if depth <= 0:
@@ -512,6 +512,9 @@ def inline_pure_exprs(index: RepoIndex, module: Module, cls, expr: ast.AST,
                 return c
             target = None
             skip_self = False
+            if isinstance(c.func, (ast.Name, ast.Attribute)) and \
+                    (c.func.id if isinstance(c.func, ast.Name) else c.func.attr) in keep:
+                return c
             if isinstance(c.func, ast.Name):
                 r = module.functions.get(c.func.id)
                 if r is None and c.func.id in cross:
@@ -551,7 +554,7 @@ def inline_pure_exprs(index: RepoIndex, module: Module, cls, expr: ast.AST,
             if comp_targets & free:
                 return c
             out = _SubstNames(bound).visit(copy.deepcopy(e))
-            return inline_pure_exprs(index, target.module, target.cls, out, depth - 1, cross)
+            return inline_pure_exprs(index, target.module, target.cls, out, depth - 1, cross, keep)
     return ast.fix_missing_locations(T().visit(copy.deepcopy(expr)))
 
 
